@@ -30,7 +30,8 @@ SIMPLE_EXC = [n for n in EXC_NAMES if n not in ("StopIteration", "ExceptionGroup
 @st.composite
 def episode(draw, index):
     base = index * 1000
-    ad = draw(accept_delay)
+    # (accept_delay=0 is the boundary at which the polling loop only ever yields through zero-length sleeps)
+    ad = draw(st.one_of(accept_delay, accept_delay, accept_delay, accept_delay, st.just(0)))
     payloads, drivers = [], [[]]
     hb = []
     for i, flv in enumerate(ALL):
@@ -88,6 +89,11 @@ def episode(draw, index):
     trigger = {"mode": end, "at_ms": at + shift}
     if end == "shutdown-outside":
         early.append({"at_ms": at + shift, "op": "shutdown"})
+        if draw(st.integers(0, 2)) == 0:
+            # a concurrent accept on the very same instance while the shutdown request is pending (the polling loop has not yet
+            # looked at it): it must be rejected without touching the active runner - the request included
+            drivers.append([{"at_ms": at + shift + draw(st.sampled_from([0, 1, 3, 10])), "op": "accept2", "same": True}])
+            trigger["accept_during_shutdown"] = True
     elif end in ("sigint", "sigint+shutdown"):
         early.append({"at_ms": at + shift, "op": "sigint"})
         if end == "sigint+shutdown":
@@ -196,13 +202,13 @@ def judge(sc, obs) -> Result:
                 res.fail("concurrent-accept-not-rejected", f"{tag}: a second accept ({'same' if o['same'] else 'other'} instance) {'returned' if not o.get('raised') else 'raised ' + o['raised']} instead of raising RuntimeError")
             elif o["t_return"] - o["t_call"] > 5e9:
                 res.fail("concurrent-accept-slow", f"{tag}: the rejected accept took {(o['t_return'] - o['t_call']) / 1e6:.0f} ms")
-            if o["t_return"] < min(t_trigger, out["t_end"]) and not o.get("running_after") and mode not in ("failure", "failure+shutdown"):
+            if o["t_return"] < min(t_trigger, out["t_end"]) and not o.get("running_after") and mode not in ("failure", "failure+shutdown", "kbint-payload"):
                 res.fail("active-runner-disturbed", f"{tag}: after the rejected accept the active runner no longer reports running")
         for e in obs["log"]:
-            if e[3] == "beats" and len(e) > 5 and e[5] == k and e[4].get("missing") and e[0] < min(t_trigger, out["t_end"]) and mode not in ("failure", "failure+shutdown"):
+            if e[3] == "beats" and len(e) > 5 and e[5] == k and e[4].get("missing") and e[0] < min(t_trigger, out["t_end"]) and mode not in ("failure", "failure+shutdown", "kbint-payload"):
                 res.fail("active-runner-disturbed", f"{tag}: heartbeats {e[4]['missing']} stopped after a rejected concurrent accept")
         for o in ops:
-            if o.get("op") == "execute" and o["t_return"] < min(t_trigger, out["t_end"]) and o.get("result") != "same" and mode not in ("failure", "failure+shutdown"):
+            if o.get("op") == "execute" and o["t_return"] < min(t_trigger, out["t_end"]) and o.get("result") != "same" and mode not in ("failure", "failure+shutdown", "kbint-payload"):
                 res.fail("active-runner-disturbed", f"{tag}: execute after a rejected accept gave {o.get('result')} / {o.get('raised')}")
         # ---- shutdown and how accept ended
         calls = [e for e in obs["log"] if e[3] == "shutdown-call" and len(e) > 5 and e[5] == k]
